@@ -268,3 +268,5 @@ META = {
                     "exit status follows CPython: uncaught exception => 1, SystemExit(code) => code",
                     "a fault inside the pipeline is modelled as an exception raised on entry of the step"],
 }
+if isinstance(META.get("bounds"), dict) and "quick" in META["bounds"]:
+    META["bounds"]["quick"] += '; 4 mixed valid / invalid merge lists'
